@@ -500,8 +500,7 @@ Definition wf_item (it : item) : bool :=
       wf_name n && wf_value v && wf_descr d
       && match j with Some (jt, _) => wf_json jt && nonempty v | None => true end
       && spells raw n v (option_map fst j) d
-      (* the value is followed by a byte outside its class, the name by one outside \w *)
-      && has_prefix (s "//") raw
+      && has_prefix (s "//") raw           (* what go/ast hands over: the text starts with the marker *)
   | IFree raw => negb (shaped_b (trim_space raw))
   end.
 
